@@ -187,7 +187,7 @@ def c10(tier, seed):
     C, D, S = {}, {}, []
     # ASan+UBSan build, and an optimised build without sanitizers in which blocks at unaligned addresses are also fed
     for san in ("asan", "fast"):
-        c, d, s = apiprops.run_api(chk, "C10", [(4, 4)], san=san, stall_s=120.0)
+        c, d, s = apiprops.run_api(chk, "C10", [(4, 4)], san=san, stall_s=120.0 if tier == "quick" else 1500.0)
         _acc(C, c); _acc(D, d); S += s[:3]
     extra = dict(counters=C, distinct_by_kind=D, builds=["asan+ubsan", "fast -O2 (adds unaligned block addresses)"])
     return chk.finish(C.get("blocks_compared", 0), D.get("class", 0),
